@@ -58,12 +58,14 @@ def units(tier):
         for si in range(len(gen.STRUCTS)):
             us.append({'k': 'modes', 'layout': layout, 'struct': si})
     us.append({'k': 'sec_within'})
+    us.append({'k': 'embedded'})
     return us
 
 
 def space(tier):
     return {'bound': f"C01 renderings with <= {MAXDEV[tier]} deviations ({gen.count_renderings(MAXDEV[tier])} per layout x structure) x "
                      f"{{segment; colon modes with / without colons for section-first layouts}}; sec_within: {len(LEADS)} x {len(SECS)} "
+                     f"(+ {len(EMB_TMPLS)} x {len(EMB_REFS)} descriptions with an embedded 'Section N of Twp/Rge' reference x segment) "
                      f"x {len(TRAILS)} x {len(PLACES)} shapes", 'caps_hit': []}
 
 
@@ -214,8 +216,57 @@ def judge_sw(acc, li, si, ti, place):
         acc.guard('sec_within_not_needed')
 
 
+# Section-first descriptions whose description blocks *mention* another section together with its Twp/Rge
+# ('... Section 15 of T154N-R97W ...'): the library rules such a Twp/Rge out as a layout marker (twprge_ignored);
+# they are still single-layout descriptions, so `segment` must not change the tracts (the colon modes are not judged here: the embedded
+# section has no colon).
+EMB_REFS = ['Section 15 of T154N-R97W', 'Sec 15 in T154N-R97W', 'Sec 15, T154N-R97W', 'Section 15 lying within T155N-R98W',
+            'Secs 15 - 16 of T154N-R97W', 'Sec. 15, all of T154N-R97W', 'Section 15 that lies within T1S-R2E']
+EMB_TMPLS = [('T154N-R97W Sec 14: NE/4 lying north of {r}, Sec 16: ALL', 2),
+             ('T154N-R97W\nSec 14: NE/4, less that part in {r}\nSec 16: ALL', 2),
+             ('T154N-R97W Sec 14: NE/4 lying north of {r}; T155N-R97W Sec 1: ALL', 2),
+             ('T154N-R97W Sec 14: NE/4 lying within {r}; Sec 20: Lot 1 north of {r}; T155N-R97W Sec 1: ALL, Sec 2: that part in {r}', 4),
+             ('T154N-R97W Sec 14: That part of the NE/4 of {r} lying north', 1)]
+
+
+def judge_embedded(acc, ti, ri):
+    text = EMB_TMPLS[ti][0].format(r=EMB_REFS[ri])
+    case = {'emb': True, 'tmpl': ti, 'ref': ri, 'text': text}
+    try:
+        d0 = _p.PLSSDesc(text)
+        b = tr(d0)
+    except Exception:  # noqa
+        acc.extra['exceptions_left_to_C03'] += 1
+        return
+    if d0.e_flags or len(b) != EMB_TMPLS[ti][1] or d0.current_layout != 'TRS_desc':
+        # the default parse does not read this text as the intended single-layout description: not a member of the family
+        acc.extra['embedded_not_single_layout'] += 1
+        return
+    for mode in ('segment', 'segment,ocr_scrub'):
+        key = f"emb|{mode}|{text}"
+        try:
+            d = _p.PLSSDesc(text, config=mode)
+        except Exception as ex:  # noqa
+            acc.case(key, 'EXC')
+            acc.violation('exception', f"C20:exception:{key}", dict(case, mode=mode), got=f"{type(ex).__name__}: {ex}")
+            continue
+        acc.case(key, tr(d))
+        acc.states += 1
+        acc.transitions += 1
+        if tr(d) != b:
+            cls = 'segment_changes_tracts' if mode.startswith('segment') else 'colon_mode_changes_tracts'
+            acc.violation(cls, f"C20:{cls}:{mode}:{text}", dict(case, mode=mode), got=tr(d), exp=b)
+        else:
+            acc.guard('embedded_reference_same')
+
+
 def run_unit(unit, tier):
     acc = Acc()
+    if unit['k'] == 'embedded':
+        for ti in range(len(EMB_TMPLS)):
+            for ri in range(len(EMB_REFS)):
+                judge_embedded(acc, ti, ri)
+        return acc.result()
     if unit['k'] == 'sec_within':
         for li, si, ti, place in itertools.product(range(len(LEADS)), range(len(SECS)), range(len(TRAILS)), PLACES):
             judge_sw(acc, li, si, ti, place)
@@ -237,6 +288,9 @@ def run_unit(unit, tier):
 
 def replay(case):
     acc = Acc()
+    if case.get('emb'):
+        judge_embedded(acc, case['tmpl'], case['ref'])
+        return [v for v in acc.viol if v['case'].get('mode') == case.get('mode')] or acc.viol
     if case.get('sw'):
         judge_sw(acc, case['lead'], case['sec'], case['trail'], case['place'])
         return acc.viol
@@ -251,7 +305,7 @@ def guards(info):
     g = info['guards']
     out = []
     for name in ('segment_same', 'colon_mode_same', 'cautious_second_pass', 'required_fallback', 'sec_within_reattached',
-                 'sec_within_not_needed'):
+                 'sec_within_not_needed', 'embedded_reference_same'):
         if not g.get(name):
             out.append(f"never observed: {name}")
     return out
